@@ -48,3 +48,26 @@ Proof. eexists; split; [reflexivity|]. split; reflexivity. Qed.
 (* text-level tie: the functions this property's hand-written model and harness were written from are unchanged
    (digests regenerated from /repo on every run; Proofs/PinsC16.v) *)
 Definition C16_source_pins := pins_C16_ok.
+
+(* the translated source (gen/Src_calib.v): _validate_calibration_params as it reads on this run, on classified arguments
+   (Model/CalibArgs.v).  It returns instead of raising ValueError exactly when the strategy is one of the four documented ones, and,
+   for max_tpr / max_tnr, min_rate is an int / float instance with 0 <= min_rate <= 1 (None, NaN, infinities, strings, lists,
+   complex numbers are rejected), and, for f_beta, beta is an int / float instance. *)
+From Coq Require Import QArith.
+From ML Require Import CalibArgs C16Src.
+From MLgen Require Import Src_calib.
+Definition C16_source_stmt : Prop :=
+  forall (s : strategy) (min_rate beta : pyarg),
+    src_validate_calibration_params s min_rate beta = true <->
+    s <> SOther /\ ((s = SMaxTpr \/ s = SMaxTnr) -> rate_ok min_rate) /\ (s = SFbeta -> arg_is_number beta = true).
+
+Theorem C16_source : C16_source_stmt.
+Proof. exact src_validate_spec. Qed.
+Print Assumptions C16_source.
+
+Example C16_source_examples :
+  src_validate_calibration_params SMaxTpr ANan ANone = false /\
+  src_validate_calibration_params SMaxTnr (ANum (1 # 2)%Q) AOther = true /\
+  src_validate_calibration_params SFbeta ANone ANone = false /\
+  src_validate_calibration_params SOther (ANum 0%Q) (ANum 1%Q) = false.
+Proof. repeat split; reflexivity. Qed.
